@@ -72,15 +72,15 @@ func c12Scenario(name string, s []byte, cuts []int) *world.Scenario {
 		sc.Name = sc.Name[:300]
 	}
 	sc.CrashSig = "crash"
-	if len(s) > 1 && s[0] == '*' {
-		if i := bytes.Index(s, []byte("\r\n")); i > 0 {
-			l := s[1:i]
+	for _, ln := range bytes.Split(s, []byte("\r\n")) {
+		if len(ln) > 1 && ln[0] == '*' {
+			l := ln[1:]
 			wrap := 0
 			for _, ch := range l {
 				wrap = wrap*10 + int(ch-'0') // the proxy's own arithmetic: silently wraps around
 			}
 			if string(l) == "-1" || (allDigits(l) && wrap < 1) {
-				sc.CrashSig = "nil-request-panic" // array count below 1
+				sc.CrashSig = "nil-request-panic" // an array count below 1 somewhere in the stream
 			}
 		}
 	}
